@@ -6,6 +6,14 @@ global quiescence (internal/qx) and, for priq, the two gate hooks; the stable pi
 step is validated by QueueWake_Trace / PriWake_Trace.  Thorough tier adds free-running stress."""
 
 
+def _load(ctx, name):
+    """A harness that recorded a `hang` (a call of the code under test that neither returns nor blocks)
+    ends early: trace files of later phases do not exist then."""
+    import os
+    p = ctx.path(name)
+    return ctx.load_traces(p) if os.path.exists(p) else []
+
+
 def run(ctx):
     fam = "queue"
     ctx.tlc_mc(fam, "QueueWake", "QueueWake_MC.cfg", workers=4, coverage=ctx.thorough)
@@ -29,10 +37,10 @@ def run(ctx):
                          "-race", ctx.q(600, 2000), "-rounds", "enter,ctl,enter,ctl,take", "-prace", ctx.q(100, 1500), "-npstress", ctx.q(60, 600)],
                 traces=[ctx.path("wake.ndjson"), ctx.path("priwake.ndjson"), ctx.path("stress.ndjson"),
                         ctx.path("pstress.ndjson")])
-    wake = ctx.load_traces(ctx.path("wake.ndjson"))
-    pwake = ctx.load_traces(ctx.path("priwake.ndjson"))
-    stress = ctx.load_traces(ctx.path("stress.ndjson"))
-    pstress = ctx.load_traces(ctx.path("pstress.ndjson"))
+    wake = _load(ctx, "wake.ndjson")
+    pwake = _load(ctx, "priwake.ndjson")
+    stress = _load(ctx, "stress.ndjson")
+    pstress = _load(ctx, "pstress.ndjson")
     rj = ctx.validate(fam, "QueueWake_Trace", "QueueWake_Trace.cfg", wake, label="steps", chunk=20000)
     rj += ctx.validate(fam, "PriWake_Trace", "PriWake_Trace.cfg", pwake, label="priq-steps", chunk=30000)
     rj += ctx.validate(fam, "QueueWake_Trace", "QueueWake_Trace.cfg", stress, label="stress", chunk=20000)
@@ -65,6 +73,16 @@ def run(ctx):
         "close, PopAnyway until 'closed', TryClear, the accessors again; 'parked' is logged only for a "
         "goroutine the runtime reports blocked at that moment (otherwise quiescence is awaited again)",
         "priq stress includes Len() pollers and pushers rejected by a full queue (never retried)",
+        "readers (IsClosed / IsCleared / Len / Size, WaitClose / WaitClear with an ended context, TryPop) take "
+        "part in a third of the race rounds as calls with replies; priq race rounds start cold in a third of the "
+        "cases (the fresh queue is first touched by four goroutines at once)",
+        "no progress-dependent exit 2: a non-blocking call that does not come back is reply 'blocked'; a stress "
+        "producer / poller that does not come back is counted in 'stuck'; if quiescence is not reached and the "
+        "same goroutine is seen running in the same neptune function at six probes two seconds apart, a `hang` "
+        "event is recorded (rejected by every trace spec) and the harness ends normally",
+        "capacities include -1 and MaxInt (logged clamped) for the list queues and 0, -1, MaxInt for priq; calls "
+        "whose return depends on the exact length (AddAnyway, WaitClear with a live context) are only issued "
+        "while the harness's count model is exact (before the first burst / race of a trace)",
         "what is issued is decided by the harness's own count model of the property (qa.Model), never by "
         "the implementation's replies",
         "priq mid-call states are reached through verifGate (build tag verif) before tyrSignal in Push/Pop; "
